@@ -389,7 +389,7 @@ pub fn property() -> Property {
             Box::new(GenPart {
                 name: "faulted-trains",
                 rule: "see property rule",
-                cases: (2_000_000, 10_000_000),
+                cases: (2_000_000, 40_000_000),
                 fuzz_decode: Some(crate::fuzzdec::c03_case),
                 strategy,
                 check,
